@@ -347,6 +347,15 @@ fn project_case_in(ctx: &Ctx, p: &GenProject, rec: &Rec, dir: &Path, with_binary
     }
     let ix = ProjIndex { files };
     rec.class("projects");
+    if p.failing_defs > 0 {
+        rec.class("projects_with_definition_failing_ssa_after_cfg_warning");
+    }
+    if p.failing_templates.iter().any(|n| p.files.iter().any(|f| f.r.src.contains(&format!("= {n}(")))) {
+        rec.class("projects_with_failing_template_instantiated");
+    }
+    if p.bom_files > 0 {
+        rec.class("projects_with_byte_order_mark");
+    }
     let mut after = 0;
     for r in &reference.reports {
         check_report(r, &reference.files, Some(&ix), rec)?;
